@@ -2,7 +2,7 @@
    A case is (chunks, observed); [observed] is what the implementation returned for
    concatStreamReader-style concatenation of the chunks, canonicalised by the harness:
    OVal v | OErr | OPanic.  Error messages are not compared (class only). *)
-From Eino Require Import Base.Util Model.Concat Model.ConcatMsg Model.ConcatOrder Model.ConcatUser Model.ConcatMsgMap Model.ConcatStream Model.ConcatDeep.
+From Eino Require Import Base.Util Model.Concat Model.ConcatMsg Model.ConcatOrder Model.ConcatUser Model.ConcatMsgMap Model.ConcatStream Model.ConcatDeep Model.ConcatDeepOrder.
 
 (* the registry of application-registered concat functions: the ones the harness registers *)
 #[local] Existing Instance harness_user.
@@ -196,6 +196,7 @@ Definition bad (c : ccase) : bool :=
   | CaseAny chunks o => negb (obs_eqb (obs_of (concat_stream_any chunks)) o)
   | CaseGenS items o => negb (obs_eqb (obs_of (stream_entry concat_stream items)) o)
   | CaseMsgS items o => negb (mobs_eqb (mobs_of (stream_entry msg_stream items)) o)
-  | CaseDeep chunks o => negb (dobs_eqb (dobs_of (dmap_stream chunks)) o)
+  | CaseDeep chunks o =>
+      negb (dobs_eqb (dobs_of (dmap_stream chunks)) o) || negb (dobs_eqb (dobs_of (dmap_stream_o (rev_sched 6) chunks)) o)
   end.
 Definition mismatches (cs : list ccase) : list nat := mismatches_from bad 0 cs.
